@@ -435,6 +435,33 @@ func checkC20(c *Ctx) (string, bool, []string) {
 			}
 		}
 	}
+	// one name hundreds of times: every column still has a name of its own
+	for _, n := range []int{255, 256, 257, 300, 1100} {
+		fs := strings.Repeat("value, ", n-1) + "value"
+		for _, q := range []string{"SELECT " + fs + " FROM m", "SELECT value AS value_7, value AS value_255, value AS value_256, " + fs + " FROM m"} {
+			st, err := influxql.ParseStatement(q)
+			if err != nil {
+				r.Violation("field-list-rejected", map[string]interface{}{"input": trunc(q, 120), "why": err.Error()})
+				continue
+			}
+			cn := st.(*influxql.SelectStatement).ColumnNames()
+			r.Eval(1)
+			seen := map[string]int{}
+			dup := ""
+			for i, name := range cn {
+				if j, ok := seen[name]; ok {
+					dup = fmt.Sprintf("columns %d and %d are both named %q", j, i, name)
+					break
+				}
+				seen[name] = i
+			}
+			if dup != "" || len(cn) != len(st.(*influxql.SelectStatement).Fields)+1 {
+				r.Violation("column-names", map[string]interface{}{"input": trunc(q, 120), "why": fmt.Sprintf("%d fields named value: %d names, %s", n, len(cn), dup)})
+				continue
+			}
+			r.Count("one-name-hundreds-of-times", 1)
+		}
+	}
 	// the time alias obtained the way a user gets it: SELECT time AS x + RewriteTimeFields
 	for _, q := range []string{"SELECT time AS ts, a, a FROM m", "SELECT a, time AS ts, mean(a) AS a FROM m"} {
 		st, err := influxql.ParseStatement(q)
